@@ -144,21 +144,132 @@ def ob_cache(ctx, res):
         res.fail("cache/floor", R, "only %d cache accesses found (expected >= 6)" % n)
         return
     g = ctx.ast.fn(R, "get_block_data", impl="CachedBBIFileRead")
-    t = up(g.body)
-    if not re.search(r"if let Some\((\w+)\) = self\.block_data\.get\(block\) \{return Ok\(\1\.clone\(\)\);?\}", t):
-        res.fail("cache/hit", g, "a cache hit must return a clone of the stored bytes")
-        return
-    m = re.search(r"let (\w+) = read_block_data\(info,&mut self\.read,block\)\?; self\.block_data\.insert\(\*block,\1\.clone\(\)\); Ok\(\1\)", t)
-    if not m:
-        res.fail("cache/miss", g, "a miss must read the block (read_block_data(info, reader, block)), store a clone under the same key and return the data")
+    from ..rules.interp import Interp, NotPure
+    undec = False
+    for hit in (True, False):
+        for full in (False, True):
+            for fails in (False, True):
+                log = []
+                BLK = {"__type": "Block", "offset": "OFF", "size": "SZ"}
+                K = lambda x: tuple(sorted((k_, v_) for k_, v_ in x.items() if not k_.startswith("__"))) if isinstance(x, dict) else x
+                cache = {"__ref": True, "store": {K(BLK): "STORED"} if hit else {}, "n": 5000 if full else 3}
+
+                def method(m, recv, args, cache=cache, log=log):
+                    if recv is cache:
+                        if m == "get" and len(args) == 1:
+                            return ("some", cache["store"][K(args[0])]) if K(args[0]) in cache["store"] else None
+                        if m == "contains_key" and len(args) == 1:
+                            return K(args[0]) in cache["store"]
+                        if m == "len" and not args:
+                            return cache["n"]
+                        if m == "clear" and not args:
+                            cache["store"].clear()
+                            cache["n"] = 0
+                            return None
+                        if m == "insert" and len(args) == 2:
+                            log.append(("insert", args[0], args[1]))
+                            cache["store"][K(args[0])] = args[1]
+                            return None
+                    if m in ("cloned", "to_vec", "to_owned") and not args:
+                        return recv
+                    raise NotPure("method %s" % m)
+
+                def reader(*args, fails=fails, log=log):
+                    log.append(("read",) + tuple(args))
+                    return ("err", "E") if fails else ("some", "DATA")
+                me = {"__ref": True, "block_data": cache, "read": "READ", "cir_tree_node_map": "NODEMAP"}
+                try:
+                    got = Interp(ctx.ast, R, extern={"None": None, "method": method, "read_block_data": reader}).call(g, [me, "INFO", BLK])
+                except NotPure as e:
+                    res.undecided("cache/not-evaluable", g, "get_block_data is outside the fragment the rule evaluates (%s)" % e)
+                    undec = True
+                    break
+                case = "%s, cache %s, read %s" % ("hit" if hit else "miss", "full" if full else "not full", "fails" if fails else "succeeds")
+                if hit:
+                    if got != ("some", "STORED") or log:
+                        res.fail("cache/hit", g, "a cache hit must return a clone of the stored bytes and touch nothing else; %s -> %s, effects %s" % (case, got, log))
+                        return
+                    continue
+                reads = [e for e in log if e[0] == "read"]
+                if [(e[0], e[1], e[2], K(e[3])) for e in reads if len(e) == 4] != [("read", "INFO", "READ", K(BLK))]:
+                    res.fail("cache/miss", g, "a miss must read the block once with (info, reader, block); %s -> effects %s" % (case, log))
+                    return
+                if fails:
+                    if got != ("err", "E") or any(e[0] == "insert" for e in log):
+                        res.fail("cache/miss", g, "a failed read must be returned and nothing stored; %s -> %s, effects %s" % (case, got, log))
+                        return
+                    continue
+                if got != ("some", "DATA") or cache["store"].get(K(BLK)) != "DATA":
+                    res.fail("cache/miss", g, "a miss must store the bytes read under the same key and return them; %s -> %s, stored %s" % (case, got, cache["store"]))
+                    return
+            if undec:
+                break
+        if undec:
+            break
+    if undec:
         return
     res.ok(g, "block cache: hit -> clone; miss -> read_block_data(info, reader, block), insert(*block, clone), return; only get/insert/len/clear/clone used")
     # node cache: Occupied -> clone of the stored vec; Vacant -> read_node, insert clone
     b = ctx.ast.fn(R, "blocks_for_cir_tree_node", impl="CachedBBIFileRead")
-    t = up(b.body)
-    if "match self.cir_tree_node_map.entry(node_offset)" not in t or t.count(".clone().into_iter()") != 2 or t.count("e.insert(") != 2 or "get_mut" in t or "or_insert_with" in t:
-        res.fail("cache/node", b, "node cache must be keyed by node_offset; hits iterate a clone; misses store a clone of what read_node returned")
-        return
+    for kind, side in (("Leaf", "Left"), ("NonLeaf", "Right")):
+        for hit in (True, False):
+            for fails in (False, True):
+                log = []
+                ENTRY = {"__ref": True, "what": "entry"}
+
+                def method(m, recv, args, log=log, ENTRY=ENTRY, hit=hit, kind=kind, side=side):
+                    if recv == "NODEMAP" and m == "entry" and len(args) == 1:
+                        log.append(("entry", args[0]))
+                        return ("variant", "Occupied" if hit else "Vacant", [ENTRY])
+                    if recv == "NODEMAP" and m in ("get", "get_mut") and len(args) == 1:
+                        log.append(("entry", args[0]))
+                        return ("some", ("variant", side, [["s1", "s2"]])) if hit else None
+                    if recv == "NODEMAP" and m == "insert" and len(args) == 2:
+                        log.append(("insert", args[0], args[1]))
+                        return None
+                    if recv is ENTRY and m == "get" and not args:
+                        return ("variant", side, [["s1", "s2"]])
+                    if recv is ENTRY and m == "insert" and len(args) == 1:
+                        log.append(("insert", "OFF", args[0]))
+                        return None
+                    if isinstance(recv, list) and m in ("into_iter", "iter", "collect", "cloned", "copied", "to_vec") and not args:
+                        return list(recv)
+                    raise NotPure("method %s" % m)
+
+                def read_node(*args, fails=fails, log=log, kind=kind):
+                    log.append(("read_node",) + tuple(args))
+                    return ("err", "E") if fails else ("some", ("variant", kind, [["r1", "r2", "r3"]]))
+
+                def overlapping(*args):
+                    return ("OVERLAPPING",) + tuple(args)
+                me = {"__ref": True, "cir_tree_node_map": "NODEMAP", "read": "READ", "block_data": "BLOCKS"}
+                try:
+                    got = Interp(ctx.ast, R, extern={"None": None, "method": method, "read_node": read_node, "nodes_overlapping": overlapping}).call(b, [me, "ENDIAN", "OFF", "C", "S", "E"])
+                except NotPure as e:
+                    res.undecided("cache/node", b, "the caching blocks_for_cir_tree_node is outside the fragment the rule evaluates (%s)" % e)
+                    return
+                case = "%s node, %s, read %s" % (kind, "cached" if hit else "not cached", "fails" if fails else "succeeds")
+                if ("entry", "OFF") not in log:
+                    res.fail("cache/node", b, "node cache must be keyed by node_offset; %s -> effects %s" % (case, log))
+                    return
+                reads = [e for e in log if e[0] == "read_node"]
+                if hit:
+                    if reads or any(e[0] == "insert" for e in log) or got != ("some", ("OVERLAPPING", ("variant", kind, [["s1", "s2"]]), "C", "S", "E")):
+                        res.fail("cache/node", b, "a cached node must be iterated from a clone of the stored items, with the query unchanged and nothing read; %s -> %s, effects %s" % (case, got, log))
+                        return
+                    continue
+                if reads != [("read_node", "READ", "OFF", "ENDIAN")]:
+                    res.fail("cache/node", b, "an uncached node must be read once with read_node(reader, node_offset, endianness); %s -> effects %s" % (case, log))
+                    return
+                if fails:
+                    if got != ("err", "E") or any(e[0] == "insert" for e in log):
+                        res.fail("cache/node", b, "a failed node read must be returned and nothing stored; %s -> %s, effects %s" % (case, got, log))
+                        return
+                    continue
+                ins = [e for e in log if e[0] == "insert"]
+                if ins != [("insert", "OFF", ("variant", side, [["r1", "r2", "r3"]]))] or got != ("some", ("OVERLAPPING", ("variant", kind, [["r1", "r2", "r3"]]), "C", "S", "E")):
+                    res.fail("cache/node", b, "an uncached node's items must be stored (all of them, under node_offset) and iterated, with the query unchanged; %s -> %s, effects %s" % (case, got, log))
+                    return
     res.ok(b, "node cache keyed by node_offset: Occupied -> clone iterated; Vacant -> read_node result collected, clone inserted")
 
 
